@@ -1,8 +1,8 @@
 package mon
 
 import (
-	"net/url"
 	"fmt"
+	"net/url"
 	"strings"
 
 	"github.com/gookit/rux"
